@@ -14,7 +14,8 @@ ROOT = os.path.dirname(os.path.dirname(os.path.abspath(__file__)))
 # usage: collect_seeds.py [<src> <results dir> <a-name> <b-name>] ...   (default: round 1 and, if present, round 2)
 ROUNDS = [("/tmp/mut_out", os.path.join(ROOT, "build", "seed_results"), {"a": "a", "b": "b"}),
           ("/tmp/mut_out2", os.path.join(ROOT, "build", "seed_results2"), {"a": "c", "b": "d"}),
-          ("/tmp/mut_out4", os.path.join(ROOT, "build", "seed_results3"), {"a": "e", "b": "f"})]
+          ("/tmp/mut_out4", os.path.join(ROOT, "build", "seed_results3"), {"a": "e", "b": "f"}),
+          ("/tmp/mut_out5", os.path.join(ROOT, "build", "seed_results4"), {"a": "g", "b": "h"})]
 DST = os.path.join(ROOT, "seeded")
 
 
@@ -56,7 +57,7 @@ def main():
             notes = open(os.path.join(d, "notes.md")).read() if os.path.isfile(os.path.join(d, "notes.md")) else ""
             files = sorted(set(re.findall(r"^\+\+\+ b/(\S+)", open(os.path.join(d, "patch.diff")).read(), flags=re.M)))
             meta = {
-                "id": f"{pid}_{v}", "property": pid, "round": 1 if v in "ab" else (2 if v in "cd" else 3), "files_changed": files,
+                "id": f"{pid}_{v}", "property": pid, "round": 1 if v in "ab" else (2 if v in "cd" else (3 if v in "ef" else 4)), "files_changed": files,
                 "written_by": "independent sub-agent given only the property record and a scratch worktree of /repo",
                 "confirmed": confirmed,
                 "confirmation": {"demo_on_clean_tree_rc": r.get("demo_clean_rc"), "demo_with_change_rc": r.get("demo_mutant_rc"),
